@@ -234,6 +234,9 @@ func (m *Machine) sysIntrinsics() {
 				return m.callReal("github.com/B1NARY-GR0UP/originium/pkg/filter", "Build", a)
 			}
 			fs := &filterSummary{}
+			if len(a[0].([]value)) == 0 {
+				panic(goPanic{"panic: invalid parameters (filter.New(0) via filter.Build of no entries)"})
+			}
 			for _, e := range a[0].([]value) {
 				key := e.(structure)[0].(Str)
 				// user key = key[:LastIndex(key,"@")]: run the real ParseKey
